@@ -20,6 +20,7 @@ FUNCTIONS = [
 BOUNDS = {
     "records": "2 biallelic records (3 thorough) in either file order; start, DP, AD counts, min_depth symbolic; genotype, missing keys (DP / AD), SOMATIC flag, SNV / insertion / symbolic allele with END solver-chosen",
     "samples": "1 sample, or tumour + normal with and without a PEDIGREE header, every selector in {None, names, indices}",
+    "call": "do_call with variants on 2 adjacent segments that a ci / sem filter merges (3 heterozygous variants with symbolic frequencies)",
     "BAF": "3 variants with symbolic frequencies in [0,1] and solver-chosen zygosities inside / outside 2 ranges; TumorBoost and purity formulas with symbolic frequencies (n_freq in (0,1))",
 }
 NOT_COVERED = ["htslib's parsing of VCF text (pysam): records are stub objects with the attributes the reader uses", "multi-allelic records (outside the statement)", "MuTect/GATK command-line headers"]
@@ -195,9 +196,14 @@ def h_rows(ctx, sample_names, pedigree, sel, normal_sel, order, skip_somatic, n=
                 ctx.claim(approx(r.alt_freq * depth, altc), "alt_freq = count / depth")
         else:
             ctx.claim(is_nan(r.alt_count) or r.alt_count == 0, "no AD: alt count missing")
+        ctx.claim(not is_nan(r.alt_freq), "a frequency that cannot be computed (no depth, no counts) is 0, not missing")
         if want_n:
             nd, na, nz = exp[want_n]
             ctx.claim(And(r.n_depth == nd, r.n_zygosity == nz), "the paired normal's depth and zygosity")
+            ctx.claim(not is_nan(r.n_alt_freq), "the paired normal's frequency is 0, not missing, where it cannot be computed (no depth)")
+            if na is not None and bool(nd > 0):
+                ctx.claim(approx(r.n_alt_freq * nd, na), "the paired normal's alt_freq = count / depth")
+            ctx.cover("normal without depth", nd == 0)
         ctx.cover("record kept")
     ctx.claim(all(used), "no other rows")
     srt = [(r.chromosome, r.start) for r in got]
@@ -302,10 +308,42 @@ def h_baf(ctx, above_half, tumor_boost=False):
         ctx.cover("two variants in a range", len(mem) == 2)
 
 
+def h_call_baf(ctx, filt):
+    """do_call with variants and a merging filter: the BAF reported for an output segment is the
+    median of the heterozygous frequencies inside THAT segment (after merging), mirrored."""
+    pos = [10, 50, 150]
+    freqs = [ctx.real(f"f{i}", 0, 1) for i in range(3)]
+    va = VA(make_df({"chromosome": ["chr1"] * 3, "start": pos, "end": [p + 1 for p in pos], "ref": ["A"] * 3, "alt": ["G"] * 3, "zygosity": [0.5] * 3, "alt_freq": freqs}))
+    cols = {"chromosome": ["chr1", "chr1"], "start": [0, 100], "end": [100, 200], "gene": ["-", "-"], "log2": [0.5, 0.75], "probes": [4, 6], "weight": [2.0, 3.0]}
+    if filt == "ci":
+        cols["ci_lo"], cols["ci_hi"] = [0.25, 0.5], [0.75, 1.0]
+    elif filt == "sem":
+        cols["sem"] = [0.0625, 0.125]
+    segs = make_cna(cols)
+    try:
+        out = call.do_call(segs, va, "none", 2, None, False, True, None, [filt] if filt else None)
+    except Exception as exc:
+        ctx.claim(False, f"do_call raised {type(exc).__name__}", info=str(exc)[:200])
+        return
+    got = list(out.data.itertuples(index=False))
+    ctx.observe("n", len(got))
+    groups = [[0, 1, 2]] if filt else [[0, 1], [2]]
+    ctx.claim(len(got) == len(groups), "segments on the same side of zero are merged by ci / sem (none without a filter)")
+    if len(got) != len(groups):
+        return
+    for r, mem in zip(got, groups):
+        vals = [freqs[i] for i in mem]
+        up = bool(median_term(vals) > 0.5)
+        mir = [0.5 + Abs(v - 0.5) if up else 0.5 - Abs(v - 0.5) for v in vals]
+        ctx.claim(approx(r.baf, median_term(mir)), "the BAF of an output segment is the median of the heterozygous frequencies inside it, mirrored to one side of 0.5")
+    ctx.cover("reached")
+
+
 def h_formulas(ctx):
     t = ctx.real("t", 0, 1)
-    nf = ctx.real("n", 0.001, 0.999)
+    nf = ctx.real("n", 0, 0.999)  # 0 included: a tie t = n = 0 takes the second branch (0.5), n = 1 divides by zero there
     out = list(_tumor_boost(obj_col([t]), obj_col([nf])))
+    ctx.cover("tie at zero", And(t == 0, nf == 0))
     if concrete(ctx):
         want = 0.5 * t / nf if t < nf else 1 - 0.5 * (1 - t) / (1 - nf)
         ctx.claim(approx(out[0], want), "TumorBoost follows its formula")
@@ -339,8 +377,9 @@ def _rows_cfgs():
 
 
 HARNESSES = [
-    Harness("rows", h_rows, _rows_cfgs(), covers=["record kept", "record dropped"], wall_s=400, thorough_wall_s=1800),
+    Harness("rows", h_rows, _rows_cfgs(), covers=["record kept", "record dropped", "normal without depth"], wall_s=400, thorough_wall_s=1800),
     Harness("load_het_snps", h_het, [{"tumor_boost": False}, {"tumor_boost": False, "zygosity_freq": 0.0}, {"tumor_boost": False, "zygosity_freq": 0.25, "tier": "thorough"}], covers=["dropped a homozygous record", "genotypes from frequencies"], wall_s=300),
     Harness("baf_by_ranges", h_baf, [{"above_half": None}, {"above_half": True}, {"above_half": False}, {"above_half": None, "tumor_boost": True}, {"above_half": True, "tumor_boost": True}], covers=["empty range", "two variants in a range"], wall_s=300),
-    Harness("formulas", h_formulas, [{}], covers=["reached"]),
+    Harness("formulas", h_formulas, [{}], covers=["reached", "tie at zero"]),
+    Harness("call_baf", h_call_baf, [{"filt": "ci"}, {"filt": "sem"}, {"filt": None}], covers=["reached"], wall_s=300),
 ]
